@@ -15,6 +15,7 @@
         on what does not depend on them.
     c18.ph2 <pw> <salt1> <salt2>        PH2 alone (no Go counterpart in the repository's API; the Go side
         answers with its own independent computation — used to tie the executable KDF)
+    c18.seq <c18.srp …> ; <c18.srp …> ; …   several exchanges in one process; results joined with ` ; `
 -/
 import Driver.Util
 import Mtv.Srp.Client
@@ -55,7 +56,15 @@ def xFor (x : Option Bytes) (pw : Bytes) (algo : Algo) : Nat :=
   | some xb => fromBE xb
   | none => xOf H KDF pw algo
 
-def handle : List String → String
+/-- the exchanges of a `c18.seq` line (separated by the token `;`) -/
+def splitSemi (ts : List String) : List (List String) :=
+  ts.foldr (fun t acc =>
+    if t = ";" then [] :: acc
+    else match acc with
+      | [] => [[t]]
+      | h :: r => (t :: h) :: r) [[]]
+
+def handle1 : List String → String
   | ["c18.ph2", pw, s1, s2] =>
     match parseBytes? pw, parseBytes? s1, parseBytes? s2 with
     | some pw, some s1, some s2 => toHex (passwordHash2 H KDF pw s1 s2)
@@ -104,5 +113,11 @@ def handle : List String → String
       | .panic s => s!"panic:{s}"
     | _, _, _, _, _, _, _, _, _ => "bad-op"
   | _ => "bad-op"
+
+/-- `c18.seq <op> ; <op> ; …`: the model's exchanges share nothing, so a sequence answers what each
+exchange answers on its own. -/
+def handle : List String → String
+  | "c18.seq" :: rest => " ; ".intercalate ((splitSemi rest).map handle1)
+  | op => handle1 op
 
 end Driver.C18
